@@ -22,7 +22,8 @@ func init() { register(codecStream{}) }
 func (codecStream) Name() string          { return "codec" }
 func (codecStream) TrivialTags() []string { return nil }
 
-const codecRoot = "/tmp/cdi-verif-codec"
+// per-process scratch root: concurrent runs of the harness must not share a tree
+var codecRoot = scratchRoot("/tmp/cdi-verif-codec")
 
 var yamlSensitive = []string{"yes", "no", "on", "off", "y", "n", "~", "null", "Null", "true", "False", "0123", "0o17", "0x1f", "1_000",
 	"1e3", ".5", "-.inf", ".NaN", "2001-12-14", "2001-12-14T21:59:43Z", " lead", "trail ", "  ", "a\nb", "a\n", "a\r\nb", "tab\there",
